@@ -114,8 +114,9 @@ CHECKS["C06"] = dict(
           "the linear interpolant (spec of C01), is the projection of a for affine data; both triangle divergences are the negative "
           "adjoint per element for EVERY field X; assembled: sum_i f_i div(X)_i = -sum_t area_t X_t.grad_t f for all f, X, meshes; "
           "entries of div sum to zero; div(grad g) = -A g with the stiffness of C01; tets (after fix e9245f1): gradient = interpolant "
-          "gradient for either orientation, exact on affine data, element adjointness with the orientation sign. Tet assembly, "
-          "dispatchers and dtype handling are tied by correspondence + oracles."),
+          "gradient for either orientation, exact on affine data, element adjointness with the orientation sign, assembled "
+          "adjointness sum_i f_i div(X)_i = -sum_t vol_t X_t.grad_t f and div(grad g) = -A g with the tetra stiffness of C01. "
+          "Dispatchers and dtype handling are tied by correspondence + oracles."),
     design="6/C06", technique="Coq proof over R (ring/field identities, scatter pairing lemma) + vm_compute correspondence")
 
 CHECKS["C05"] = dict(
@@ -141,8 +142,11 @@ CHECKS["C08"] = dict(
           "tetra; one model for the generic and the triangle-specific entry point since the mass is replaced by the identity) satisfies "
           "A g = div(grad f/|grad f|) at every vertex, is >= 0 and attains 0; the rotated function is 0 at vertex 0 and satisfies "
           "A r = div(n x grad f) at every other vertex. The right-hand sides are the C06 operators. The implementation's outputs are "
-          "verified against these systems inside Coq (certificate check). Exactness for affine f / quarter-turn gradients are decided by "
-          "oracles on flat oriented meshes; termination of SuperLU on the singular system is not covered (known finding F17) (partial)."),
+          "verified against these systems inside Coq (certificate check). Exactness: for f = a.x + b0 on a flat triangle mesh (a in "
+          "the plane) and on ANY tetrahedral mesh (either element orientation) the normalised gradient field is the gradient of "
+          "u = (a/|a|).x and the right-hand side equals -A u, so the unit-slope function decreasing along grad f solves the system "
+          "exactly. The quarter-turn clause of compute_rotated_f is decided by oracles on flat oriented meshes; termination of "
+          "SuperLU on the singular system is not covered (known finding F17) (partial)."),
     design="6/C08", technique="Coq proof parametric in the solver oracle + in-Coq certificate check")
 
 CHECKS["C03"] = dict(
